@@ -25,7 +25,7 @@ func genStoreOps(r *core.Rand, c *stCase, n int) {
 		}
 	}
 	for i := 0; i < n; i++ {
-		switch r.Pick(36, 6, 8, 6, 7, 6, 14, 9, 11, 3, 4, 2) {
+		switch r.Pick(36, 6, 8, 6, 7, 6, 14, 9, 11, 3, 4, 2, 9) {
 		case 0:
 			c.Cmds = append(c.Cmds, genAdd(r, c))
 			nAdds++
@@ -82,8 +82,15 @@ func genStoreOps(r *core.Rand, c *stCase, n int) {
 			if len(kinds) > 0 {
 				c.Cmds = append(c.Cmds, stCmd{Op: "badadd", Bad: kinds[r.Intn(len(kinds))], X: r.Bool(), N: r.Intn(3)})
 			}
+		case 12:
+			// probes with search options, answered by the store and by the reference index
+			for k := r.Range(1, 3); k > 0; k-- {
+				if o := genOpt(r, c); o != nil {
+					c.Cmds = append(c.Cmds, stCmd{Op: "osearch", O: o})
+				}
+			}
 		case 11:
-			// the boundary ids 0 and MaxUint32, once each
+			// the boundary ids 0 and MaxUint32, option probes (positive thresholds derived from the distances the reference index reports — exactly a distance, a midpoint —, aggregation kinds, autocut, nprobes / efSearch, vector+text with every fusion kind through WithFusionKind and WithFusion, k exactly large enough) answered by the store AND by a reference in-memory hybrid index fed the same acknowledged adds and removes: id sets must be equal whenever the vector index is exact and the faithful model says the store presents exactly the live documents, size / membership sanity otherwise; IVF templates are trained through the store's own Train, once each
 			sp := 1 + r.Intn(2)
 			used := false
 			for _, x := range c.Cmds {
@@ -99,6 +106,61 @@ func genStoreOps(r *core.Rand, c *stCase, n int) {
 			}
 		}
 	}
+}
+
+var fusionKinds = []string{"weighted_sum", "reciprocal_rank", "max", "min"}
+
+// genOpt draws the options of one `osearch` probe (nil when the case has no vector template).
+func genOpt(r *core.Rand, c *stCase) *stOpt {
+	if c.Vec == "none" || c.Vec == "" {
+		return nil
+	}
+	o := &stOpt{Mode: "vec"}
+	if c.Text && r.Chance(0.35) {
+		o.Mode = "vt"
+		o.Fus = fusionKinds[r.Intn(len(fusionKinds))]
+		o.Via = r.Bool()
+		o.Tok = r.Bool()
+		if r.Chance(0.15) {
+			o.Fus = "" // the default fusion
+		}
+	}
+	switch r.Pick(3, 4, 3) {
+	case 1:
+		o.Thr, o.R = 1, r.Intn(8)
+	case 2:
+		o.Thr, o.R = 2, r.Intn(8)
+	}
+	if r.Chance(0.3) {
+		o.Agg = []string{"sum", "max", "mean"}[r.Intn(3)]
+	}
+	if o.Mode == "vec" && r.Chance(0.15) {
+		o.Cut = r.Range(1, 3)
+	}
+	if c.Vec == "ivf" {
+		o.Np = r.Range(1, 2)
+	}
+	if c.Vec == "hnsw" && r.Chance(0.6) {
+		o.Ef = []int{1, 8, 64, 400}[r.Intn(4)]
+	}
+	o.KX = r.Chance(0.4)
+	return o
+}
+
+// optProbes: a fixed battery of option probes (used at the end of histories).
+func optProbes(r *core.Rand, c *stCase) []stCmd {
+	var out []stCmd
+	if c.Vec == "none" || c.Vec == "" {
+		return out
+	}
+	out = append(out, stCmd{Op: "osearch", O: &stOpt{Mode: "vec", Thr: 1, R: r.Intn(6)}},
+		stCmd{Op: "osearch", O: &stOpt{Mode: "vec", Thr: 2, R: r.Intn(6), KX: true}})
+	for k := 0; k < 2; k++ {
+		if o := genOpt(r, c); o != nil {
+			out = append(out, stCmd{Op: "osearch", O: o})
+		}
+	}
+	return out
 }
 
 func genStore(r *core.Rand, tier string) *stCase {
@@ -127,6 +189,7 @@ func genStore(r *core.Rand, tier string) *stCase {
 		genStoreOps(r, c, n)
 	}
 	c.Cmds = append(c.Cmds, kProbes(c)...)
+	c.Cmds = append(c.Cmds, optProbes(r, c)...)
 	c.Cmds = append(c.Cmds, stCmd{Op: "state"}, stCmd{Op: "ls"}, stCmd{Op: "close"}, stCmd{Op: "ls"})
 	return c
 }
@@ -217,7 +280,7 @@ func nonTrivialStore(lines, replies []string) bool {
 func init() {
 	register(&core.Typed[stCase]{
 		StreamName: "store", Prop: "C08",
-		RuleText: "one open store; random sequential histories over add / addid / remove / flush / forced rotate / trigger-compaction / evict-all / vector, text and metadata probes (metadata also through filter GROUPS alone and groups + filters; every modality with a huge k, with k = exactly the size of the previous answer and with one more), rejected adds (unsupported metadata value type, wrong dimension, zero vector under cosine; through Add and AddWithID), the boundary ids 0 and MaxUint32, memtable limits from below one document up, flush thresholds 60 B .. default, compaction thresholds 2..5, templates flat/hnsw/trained ivf/none x text x metadata; the flush and compaction workers take exactly one lock-delimited step per `bg` command (the interleaving is part of the trace), segment goroutines of a search are serialised in the order they happened to start; after the history all modalities are probed and bookkeeping state and directory are compared with the model; thorough adds directed schedules; a case is non-trivial when a search that had to find documents (must>0) ran with at least one registered segment after a worker step / rotation / flush; distinct = distinct request streams",
+		RuleText: "one open store; random sequential histories over add / addid / remove / flush / forced rotate / trigger-compaction / evict-all / vector, text and metadata probes (metadata also through filter GROUPS alone and groups + filters; every modality with a huge k, with k = exactly the size of the previous answer and with one more), rejected adds (unsupported metadata value type, wrong dimension, zero vector under cosine; through Add and AddWithID), the boundary ids 0 and MaxUint32, option probes (positive thresholds derived from the distances the reference index reports — exactly a distance, a midpoint —, aggregation kinds, autocut, nprobes / efSearch, vector+text with every fusion kind through WithFusionKind and WithFusion, k exactly large enough) answered by the store AND by a reference in-memory hybrid index fed the same acknowledged adds and removes: id sets must be equal whenever the vector index is exact and the faithful model says the store presents exactly the live documents, size / membership sanity otherwise; IVF templates are trained through the store's own Train, memtable limits from below one document up, flush thresholds 60 B .. default, compaction thresholds 2..5, templates flat/hnsw/trained ivf/none x text x metadata; the flush and compaction workers take exactly one lock-delimited step per `bg` command (the interleaving is part of the trace), segment goroutines of a search are serialised in the order they happened to start; after the history all modalities are probed and bookkeeping state and directory are compared with the model; thorough adds directed schedules; a case is non-trivial when a search that had to find documents (must>0) ran with at least one registered segment after a worker step / rotation / flush; distinct = distinct request streams",
 		NCases: func(tier string) int {
 			if tier == "thorough" {
 				return 3000
